@@ -22,7 +22,7 @@
      is discarded by their caller: C21_defer_limit_swallowed_refuted (finding, confirmed on the crate). *)
 From Coq Require Import Sorting.Sorted Sorting.Permutation.
 From ApolloVerif Require Import Base.Chars Ast.Ast Schema.Model Valid.Guards Valid.GuardsProofs
-     Valid.SortProofs Valid.GuardsExamples Valid.CycleExact Valid.DeepChain Valid.Unguarded.
+     Valid.SortProofs Valid.GuardsExamples Valid.CycleExact Valid.DeepChain Valid.Unguarded Valid.WalkExact.
 
 (* ---- guarded traversals: termination within limit + 1 activations, fuel independence, no truncation *)
 
@@ -156,6 +156,21 @@ Check C21_cycle_verdict_exact :
      | _ => True
      end).
 Print Assumptions C21_cycle_verdict_exact.
+
+(* ---- a walk that returns Ok has seen exactly the fragment names reachable from its start (walk_selections,
+   walk_selections_with_deduped_fragments, forbid_defer_on_root: the modes that follow spreads and have no
+   skip test).  For the deduplicating walk: collect_used_fragments, hence every UnusedFragment diagnostic, is
+   exact unless a RecursionLimitError is reported. *)
+Theorem C21_walk_seen_exact : forall frags m limit fuel sels acc c seen,
+  gm_skip m = false -> gm_spreads m = true ->
+  gd_walk_top_with limit fuel frags m sels = (acc, GrOk (c, seen)) ->
+  forall n, In n seen <-> reach_from frags m (direct m sels) n.
+Proof. intros frags m limit fuel sels acc c seen H1 H2. exact (walk_seen_exact frags m H1 H2 limit fuel sels acc c seen). Qed.
+Check C21_walk_seen_exact : forall frags m limit fuel sels acc c seen,
+  gm_skip m = false -> gm_spreads m = true ->
+  gd_walk_top_with limit fuel frags m sels = (acc, GrOk (c, seen)) ->
+  forall n, In n seen <-> reach_from frags m (direct m sels) n.
+Print Assumptions C21_walk_seen_exact.
 
 (* ---- deep => limit error, for every limit: an unbounded chain of input objects *)
 Theorem C21_deep_chain_limit : forall limit fuel, (fuel >= gd_fuel_of limit)%nat ->
